@@ -794,6 +794,13 @@ func getUID(uid string) (uint32, error) {
 		return 4294967295, nil
 	}
 
+	if strings.HasPrefix(uid, "-") {
+		// Listed rules show IDs as signed 32-bit numbers (like auditctl -l).
+		if v, err := strconv.ParseInt(uid, 10, 32); err == nil {
+			return uint32(v), nil
+		}
+	}
+
 	v, err := strconv.ParseUint(uid, 10, 32)
 	if err != nil {
 		if !errors.Is(err, strconv.ErrSyntax) {
@@ -815,6 +822,13 @@ func getUID(uid string) (uint32, error) {
 }
 
 func getGID(gid string) (uint32, error) {
+	if strings.HasPrefix(gid, "-") {
+		// Listed rules show IDs as signed 32-bit numbers (like auditctl -l).
+		if v, err := strconv.ParseInt(gid, 10, 32); err == nil {
+			return uint32(v), nil
+		}
+	}
+
 	v, err := strconv.ParseUint(gid, 10, 32)
 	if err != nil {
 		if !errors.Is(err, strconv.ErrSyntax) {
